@@ -681,7 +681,7 @@ class Check(PropertyCheck):
             for _ in range(rng.weighted([(3, 0), (3, 1), (2, 2)])):
                 if d and rng.chance(0.5): del d[rng.randrange(len(d))]
                 else: d.insert(rng.randint(0, len(d)), rng.pick([0x80, 0xBF, 0xC2, 0xE0, 0xED, 0xF0, 0xF4, 0x41, rng.getrandbits(8)]))
-            return {"op": "dec", "data_hex": hx(bytes(d))}
+            return {"op": rng.pick(["dec", "dec", "decbs"]), "data_hex": hx(bytes(d))}
         if k == "b64":
             n = rng.randint(0, 14)
             d = bytearray(rng.pick(self.B64ALPHA) for _ in range(n))
@@ -715,6 +715,7 @@ class Check(PropertyCheck):
             except binascii.Error: return {"unit": "err"}
         if op == "b2a": return {"unit": hx(binascii.b2a_base64(unhx(case["data_hex"]), newline=False))}
         if op == "dec": return {"unit": cps(unhx(case["data_hex"]).decode("utf8", "replace"))}
+        if op == "decbs": return {"unit": cps(unhx(case["data_hex"]).decode("utf-8", "backslashreplace"))}
         if op == "enc": return {"unit": hx(case["text"].encode("utf-8"))}
         if op == "mkauth": return {"unit": cps(proxyauth.mkauth(case["u"], case["p"]))}
         if op == "resp":
@@ -892,7 +893,7 @@ class Check(PropertyCheck):
 
     # ------------------------------------------------------------------ property oracle (needs no model)
     def oracle(self, case, obs):
-        if case["op"] in ("parse", "b64", "b2a", "dec", "enc", "mkauth", "resp"): return []
+        if case["op"] in ("parse", "b64", "b2a", "dec", "decbs", "enc", "mkauth", "resp"): return []
         val = case["val"]
         fails = []
         if case["op"] == "hook":
@@ -1037,7 +1038,7 @@ class Check(PropertyCheck):
     def model_lines(self, case):
         if case.get("upauth"): return None
         op = case["op"]
-        if op in ("b64", "b2a", "dec"): return [f"{op} {case['data_hex']}"]
+        if op in ("b64", "b2a", "dec", "decbs"): return [f"{op} {case['data_hex']}"]
         if op == "enc": return [f"enc {cps(case['text'])}"]
         if op == "mkauth": return [f"mkauth {cps(case['u'])} {cps(case['p'])}"]
         if op == "resp": return [f"resp {1 if case['proxy'] else 0}"]
@@ -1064,7 +1065,7 @@ class Check(PropertyCheck):
         return page_digest(int(st), m.group(1) if m else b"?", unhx(name), unhx(value), body)
 
     def model_obs(self, case, replies):
-        if case["op"] in ("b64", "b2a", "dec", "enc", "mkauth", "resp") or len(replies) == 1: return replies[0]
+        if case["op"] in ("b64", "b2a", "dec", "decbs", "enc", "mkauth", "resp") or len(replies) == 1: return replies[0]
         pages = {"407": self.model_page(replies[1]), "401": self.model_page(replies[2])}
         toks = []
         for t in replies[0].split(" "):
